@@ -424,3 +424,118 @@ package render
 //@   ensures [coarser-square-visits-each-of-its-four-children-exactly-once] !pruned && c.n > 1 ==> nev("call:processSquare") == 4 && nev(").Write") == 0 && nevmatch("call:processSquare", 1, square{c.v.Add(v2i.Vec{0, 0}), c.n - 1}) == 1 && nevmatch("call:processSquare", 1, square{c.v.Add(v2i.Vec{pow2(c.n - 1), 0}), c.n - 1}) == 1 && nevmatch("call:processSquare", 1, square{c.v.Add(v2i.Vec{0, pow2(c.n - 1)}), c.n - 1}) == 1 && nevmatch("call:processSquare", 1, square{c.v.Add(v2i.Vec{pow2(c.n - 1), pow2(c.n - 1)}), c.n - 1}) == 1
 //@   ensures [cache-stays-correct] forall k v2i.Vec :: cacheinv2(dc, k)
 //@ end
+
+//-----------------------------------------------------------------------------
+// C06 (with the interpolation contracts above): the uniform renderers pair
+// every cell's corner coordinates with the cached values of exactly those
+// lattice points, in the table's corner order, and the lattice tiles the box.
+
+//@ func layerYZ.Get
+//@   property C06
+//@   ensures [value-index] x == 0 ==> r == l.val0[y*(l.steps.Z + 1) + z]
+//@   ensures [next-layer-index] x != 0 ==> r == l.val1[y*(l.steps.Z + 1) + z]
+//@ end
+
+//@ func evalRoutines
+//@   property C06
+//@   id summary
+//@   trusted starts the evaluation workers; scheduling is outside contract reach (C09/C12 are not claimed)
+//@   ensures [returns] true
+//@ end
+
+//@ func layerYZ.Evaluate
+//@   property C06
+//@   id summary
+//@   trusted fills val1 with the shape's values on lattice layer x and moves the previous layer to val0; the batched, concurrent evaluation is not verified (see not_decided)
+//@   havoc l.val0
+//@   havoc l.val1
+//@   ensures [layers-allocated] len(l.val0) == (l.steps.Y + 1)*(l.steps.Z + 1) && len(l.val1) == (l.steps.Y + 1)*(l.steps.Z + 1)
+//@ end
+
+//@ func marchingCubes
+//@   property C06 C05
+//@   id pairing
+//@   requires step > 0 && box.Min.X < box.Max.X && box.Min.Y < box.Max.Y && box.Min.Z < box.Max.Z
+//@   invariant 0 x >= 0 && p.X == base.X + real(x)*dx
+//@   invariant 1 y >= 0 && p.X == base.X + real(x)*dx && p.Y == base.Y + real(y)*dy
+//@   invariant 2 z >= 0 && p.X == base.X + real(x)*dx && p.Y == base.Y + real(y)*dy && p.Z == base.Z + real(z)*dz
+//@   atentry 0 real(nx) >= size.X/step && real(ny) >= size.Y/step && real(nz) >= size.Z/step && nx >= 1 && ny >= 1 && nz >= 1
+//@   atentry 0 dx*real(nx) == size.X && dy*real(ny) == size.Y && dz*real(nz) == size.Z && dx <= step && dy <= step && dz <= step
+//@   body 2 nev("call:mcToTriangles") == 1 && nev(").Write") == 1 && evarg("call:mcToTriangles", 0, 2) == 0
+//@   body 2 evarg("call:mcToTriangles", 0, 0)[0] == v3.Vec{base.X + real(x)*dx, base.Y + real(y)*dy, base.Z + real(z)*dz} && evarg("call:mcToTriangles", 0, 1)[0] == l.Get(0, y, z)
+//@   body 2 evarg("call:mcToTriangles", 0, 0)[1] == v3.Vec{base.X + real(x + 1)*dx, base.Y + real(y)*dy, base.Z + real(z)*dz} && evarg("call:mcToTriangles", 0, 1)[1] == l.Get(1, y, z)
+//@   body 2 evarg("call:mcToTriangles", 0, 0)[2] == v3.Vec{base.X + real(x + 1)*dx, base.Y + real(y + 1)*dy, base.Z + real(z)*dz} && evarg("call:mcToTriangles", 0, 1)[2] == l.Get(1, y + 1, z)
+//@   body 2 evarg("call:mcToTriangles", 0, 0)[3] == v3.Vec{base.X + real(x)*dx, base.Y + real(y + 1)*dy, base.Z + real(z)*dz} && evarg("call:mcToTriangles", 0, 1)[3] == l.Get(0, y + 1, z)
+//@   body 2 evarg("call:mcToTriangles", 0, 0)[4] == v3.Vec{base.X + real(x)*dx, base.Y + real(y)*dy, base.Z + real(z + 1)*dz} && evarg("call:mcToTriangles", 0, 1)[4] == l.Get(0, y, z + 1)
+//@   body 2 evarg("call:mcToTriangles", 0, 0)[5] == v3.Vec{base.X + real(x + 1)*dx, base.Y + real(y)*dy, base.Z + real(z + 1)*dz} && evarg("call:mcToTriangles", 0, 1)[5] == l.Get(1, y, z + 1)
+//@   body 2 evarg("call:mcToTriangles", 0, 0)[6] == v3.Vec{base.X + real(x + 1)*dx, base.Y + real(y + 1)*dy, base.Z + real(z + 1)*dz} && evarg("call:mcToTriangles", 0, 1)[6] == l.Get(1, y + 1, z + 1)
+//@   body 2 evarg("call:mcToTriangles", 0, 0)[7] == v3.Vec{base.X + real(x)*dx, base.Y + real(y + 1)*dy, base.Z + real(z + 1)*dz} && evarg("call:mcToTriangles", 0, 1)[7] == l.Get(0, y + 1, z + 1)
+//@   ensures [returns] true
+//@ end
+
+//-----------------------------------------------------------------------------
+// C08 / C06: the uniform marching squares renderer. Here the whole chain is
+// under contract: the line cache holds the shape's values at the lattice
+// points of its line, and every cell is handed its four corners in table order
+// together with the shape's values at exactly those corners.
+
+//@ spec lat2u(base v2.Vec, inc v2.Vec, x int, y int) = v2.Vec{base.X + real(x)*inc.X, base.Y + real(y)*inc.Y}
+
+//@ func lineCache.evaluate
+//@   property C08 C06
+//@   id cache
+//@   modular
+//@   requires l.steps.Y >= 0
+//@   requires isnil(l.val1) || len(l.val1) == l.steps.Y + 1
+//@   requires isnil(l.val0) || len(l.val0) == l.steps.Y + 1
+//@   havoc l.val0
+//@   havoc l.val1
+//@   invariant 0 y >= 0 && y <= ny + 1 && idx == y && len(l.val1) == ny + 1 && p.X == l.base.X + real(x)*dx && p.Y == l.base.Y + real(y)*dy
+//@   invariant 0 forall k int :: 0 <= k && k < y ==> l.val1[k] == s.Evaluate(lat2u(l.base, l.inc, x, k))
+//@   ensures [line-holds-the-shape-values] forall k int :: 0 <= k && k <= l.steps.Y ==> l.val1[k] == s.Evaluate(lat2u(l.base, l.inc, x, k))
+//@   ensures [previous-line-kept] forall k int :: 0 <= k && k < old(len(l.val1)) ==> l.val0[k] == old(l.val1[k])
+//@   ensures [lengths] len(l.val1) == l.steps.Y + 1 && !isnil(l.val1) && len(l.val0) == old(len(l.val1)) && (isnil(l.val0) <==> old(isnil(l.val1)))
+//@   ensures [geometry-untouched] l.base == old(l.base) && l.inc == old(l.inc) && l.steps == old(l.steps)
+//@ end
+
+//@ func lineCache.get
+//@   property C08 C06
+//@   ensures [this-line] x == 0 ==> r == l.val0[y]
+//@   ensures [next-line] x != 0 ==> r == l.val1[y]
+//@ end
+
+//@ func marchingSquares
+//@   property C08 C06
+//@   id pairing
+//@   requires resolution > 0
+//@   requires s.BoundingBox().Min.X < s.BoundingBox().Max.X && s.BoundingBox().Min.Y < s.BoundingBox().Max.Y
+//@   invariant 0 x >= 0 && p.X == base.X + real(x)*dx && len(l.val1) == ny + 1 && (isnil(l.val0) || len(l.val0) == ny + 1) && l.base == base && l.inc == inc && l.steps == steps && ny >= 0
+//@   invariant 0 forall k int :: 0 <= k && k <= ny ==> l.val1[k] == s.Evaluate(lat2u(base, inc, x, k))
+//@   invariant 1 y >= 0 && p.Y == base.Y + real(y)*dy && p.X == base.X + real(x)*dx
+//@   atentry 0 nx >= 1 && ny >= 1 && dx*real(nx) == size.X && dy*real(ny) == size.Y && dx <= resolution && dy <= resolution
+//@   atentry 0 base.X < s.BoundingBox().Min.X && base.Y < s.BoundingBox().Min.Y && base.X + size.X > s.BoundingBox().Max.X && base.Y + size.Y > s.BoundingBox().Max.Y
+//@   body 1 nev("call:msToLines") == 1 && nev(").Write") == 1 && evarg("call:msToLines", 0, 2) == 0
+//@   body 1 evarg("call:msToLines", 0, 0)[0] == lat2u(base, inc, x, y) && evarg("call:msToLines", 0, 1)[0] == s.Evaluate(lat2u(base, inc, x, y))
+//@   body 1 evarg("call:msToLines", 0, 0)[1] == lat2u(base, inc, x + 1, y) && evarg("call:msToLines", 0, 1)[1] == s.Evaluate(lat2u(base, inc, x + 1, y))
+//@   body 1 evarg("call:msToLines", 0, 0)[2] == lat2u(base, inc, x + 1, y + 1) && evarg("call:msToLines", 0, 1)[2] == s.Evaluate(lat2u(base, inc, x + 1, y + 1))
+//@   body 1 evarg("call:msToLines", 0, 0)[3] == lat2u(base, inc, x, y + 1) && evarg("call:msToLines", 0, 1)[3] == s.Evaluate(lat2u(base, inc, x, y + 1))
+//@   ensures [closes-the-output-after-the-last-cell] nev(").Close") == 1
+//@ end
+
+//@ lemma mc_vertex_within_one_edge_of_the_surface(s sdf.SDF3, p1 v3.Vec, p2 v3.Vec)
+//@   property C06
+//@   requires forall a v3.Vec, b v3.Vec :: lip3r(s, a, b)
+//@   requires s.Evaluate(p1) < 0 && 0 <= s.Evaluate(p2)
+//@   let v = merged(mcInterpolate(p1, p2, s.Evaluate(p1), s.Evaluate(p2), 0))
+//@   let tt = merged(mcInterpolate(v3.Vec{0, 0, 0}, v3.Vec{1, 0, 0}, s.Evaluate(p1), s.Evaluate(p2), 0)).X
+//@   assert [parameter-in-unit-interval] 0 <= tt && tt <= 1
+//@   assert [vertex-is-the-convex-combination] v == p1.Add(p2.Sub(p1).MulScalar(tt))
+//@   let fv = s.Evaluate(v)
+//@   let h2 = p2.Sub(p1).Length2()
+//@   assert [near-first-corner] sq(fv - s.Evaluate(p1)) <= sq(tt)*h2
+//@   assert [near-second-corner] sq(fv - s.Evaluate(p2)) <= sq(1 - tt)*h2
+//@   assert [corner-signs] s.Evaluate(p1) < 0 && 0 <= s.Evaluate(p2) && h2 >= 0
+//@   generalize v
+//@   focus parameter-in-unit-interval near-first-corner near-second-corner corner-signs
+//@   ensures [field-at-the-vertex-is-at-most-one-edge-length] sq(fv) <= h2
+//@ end
